@@ -288,9 +288,57 @@ def check_make_quote_map(ctx, fn):
                 and isinstance(n.func.value, ast.Constant) and str(n.func.value.value).startswith('%'):
             detail = 'format %r' % n.func.value.value
             fmt_ok = n.func.value.value in ('%{:02X}', '%{0:02X}')
-    ifs = [n for n in ast.walk(fn.node) if isinstance(n, (ast.If, ast.IfExp))]
-    branch_ok = any(isinstance(i.test, ast.Compare) and isinstance(i.test.ops[0], (ast.In, ast.NotIn)) and
-                    txt(i.test.comparators[0]) == fn.params[0] for i in ifs)
+    # which branch does what, decided per path: a character found in the safe set is stored as itself, any other as the escape
+    from rules.common import paths_of as _paths_of, strip_not as _strip_not
+    wq, qpaths = _paths_of(ctx.program, fn)
+    seen_safe = seen_unsafe = 0
+    polar_bad = None
+    for p in qpaths:
+        last_truth = None
+        for o in p.ops:
+            if o.kind in ('iter_next', 'loop_iter'):
+                last_truth = None
+            elif o.kind == 'test':
+                e, neg = _strip_not(o.val)
+                if isinstance(e, ast.Compare) and len(e.ops) == 1 and isinstance(e.ops[0], (ast.In, ast.NotIn)) and \
+                        txt(e.comparators[0]) == fn.params[0]:
+                    t = (o.info != neg)
+                    last_truth = t if isinstance(e.ops[0], ast.In) else (not t)
+            elif o.kind == 'sub_store' and last_truth is None and o.info is not None and isinstance(wq.expand(o.info), ast.IfExp):
+                # value-position conditional: c if c in safe else escape
+                v = wq.expand(o.info)
+                e, neg = _strip_not(v.test)
+                if isinstance(e, ast.Compare) and len(e.ops) == 1 and isinstance(e.ops[0], (ast.In, ast.NotIn)) and \
+                        txt(e.comparators[0]) == fn.params[0]:
+                    safe_is_body = (not neg) == isinstance(e.ops[0], ast.In)
+                    safe_v, unsafe_v = (v.body, v.orelse) if safe_is_body else (v.orelse, v.body)
+
+                    def esc(x):
+                        return isinstance(x, (ast.JoinedStr, ast.BinOp)) or (isinstance(x, ast.Call) and isinstance(x.func, ast.Attribute)
+                                                                             and x.func.attr == 'format') or \
+                            (isinstance(x, ast.Name) and wq.tokens.get(x.id, ('',))[0] == 'fresh' and wq.tokens[x.id][1] == 'str')
+                    seen_safe += 1
+                    seen_unsafe += 1
+                    if esc(safe_v) and polar_bad is None:
+                        polar_bad = 'a safe character is stored escaped (%s)' % txt(safe_v)
+                    if not esc(unsafe_v) and polar_bad is None:
+                        polar_bad = 'an unsafe character is stored as %s' % txt(unsafe_v)
+            elif o.kind == 'sub_store' and last_truth is not None and o.info is not None:
+                v = wq.expand(o.info)
+                is_escape = isinstance(v, (ast.JoinedStr, ast.BinOp)) or (isinstance(v, ast.Call) and isinstance(v.func, ast.Attribute)
+                                                                          and v.func.attr == 'format') or \
+                    (isinstance(v, ast.Name) and wq.tokens.get(v.id, ('',))[0] == 'fresh' and wq.tokens[v.id][1] == 'str')
+                if last_truth:
+                    seen_safe += 1
+                    if is_escape and polar_bad is None:
+                        polar_bad = 'a safe character is stored escaped (%s)' % txt(v)
+                else:
+                    seen_unsafe += 1
+                    if not is_escape and polar_bad is None:
+                        polar_bad = 'an unsafe character is stored as %s' % txt(v)
+    branch_ok = seen_safe > 0 and seen_unsafe > 0 and polar_bad is None
+    if polar_bad:
+        detail = (detail + '; ' if detail else '') + polar_bad
     if not detail:
         raise AnalysisError('%s: no recognisable "%%" + hex formatting construct' % fn.fq)
     ctx.ob('T12.qmap', fn.fq, 'unsafe byte b -> "%" + two UPPER-case hex digits of b, safe -> itself, for all 256 bytes',
